@@ -207,6 +207,12 @@ def check_end(sim):
         stuck = getattr(sim, "unfinished", None)
         if stuck is None:
             stuck = [c.tid for c in sim.callers if c.started and not c.done]
+        if getattr(sim, "spin", False):
+            pr.append(("hang:" + drv, "every caller completes (or fails) and the lock is free at the end",
+                       "the driver ran for seconds of real time without returning to the event loop (a busy loop: "
+                       "virtual time does not advance, no other caller, timer or report can be served); callers "
+                       "%s never completed" % (stuck,)))
+            return pr
         pr.append(("hang:" + drv, "every caller completes (or fails) and the lock is free at the end",
                    "callers %s never completed: no report, no timer and no other event is left that could wake them; "
                    "end state %s" % (stuck, getattr(sim, "end_state", None))))
@@ -233,6 +239,24 @@ def check_end(sim):
         elif wrong and not sim.late:
             cancelled = any(e[1] == "env" and e[2] == "cancel" for e in sim.events)
             pr.append((("xtalk-cancel:" if cancelled and drv != "tridonic" else "result:") + drv, "follow-up answer " + want[1], wrong[0][1]))
+    return pr
+
+
+def check_refusals(sim):
+    """a frame length the gateway cannot carry (hasseb: anything but 16 bits) is refused at once in every send
+    mode: the caller ends with UnsupportedFrameTypeError, none of its 24-bit frames reaches the wire"""
+    pr = []
+    if sim.kind != "hasseb" or not sim.cfg.get("unsupported") or sim.hang:
+        return pr
+    for c in sim.callers:
+        if "dev" not in [it for it in c.items() if isinstance(it, str)]:
+            continue
+        if c.started and (not c.done or c.result != ("err", "UnsupportedFrameTypeError")):
+            pr.append(("unit:hasseb:refuse", "caller %d (%s, 24-bit frame) ends with UnsupportedFrameTypeError"
+                       % (c.tid, c.kind), "done=%s result=%s" % (c.done, c.result)))
+    wide = [w for w in sim.wire if w[1] != 16]
+    if wide:
+        pr.append(("unit:hasseb:refuse", "only 16-bit frames are handed to the hasseb gateway", str(wide[:3])))
     return pr
 
 
@@ -405,4 +429,5 @@ def check_all(sim):
     pr += check_retry_units(sim)
     pr += check_retried_results(sim)
     pr += check_serial_deadline(sim)
+    pr += check_refusals(sim)
     return pr
